@@ -299,6 +299,12 @@ func RunWorker(h Harness, o WorkerOpts) (res WorkerResult) {
 			st.Add(k, n)
 		}
 		hashes[out.Hash] = true
+		if len(res.Samples) < 3 && (i-o.From)%7 == 0 {
+			res.Samples = append(res.Samples, map[string]any{"run": i, "scenario": h.Describe(sc), "strategy": cfg.Strategy, "steps": out.Steps, "preemptions": out.Preempts})
+		}
+		if v == nil && o.RaceCheck != nil && o.RaceCheck() > races0 {
+			v = &Violation{Signature: "race", Detail: "data race reported by the race detector during this run"}
+		}
 		if hl != nil {
 			vs := ""
 			if v != nil {
@@ -311,12 +317,6 @@ func RunWorker(h Harness, o WorkerOpts) (res WorkerResult) {
 		}
 		if out.PreemptsInCall > 0 || out.Nontrivial {
 			nontrivial[out.Hash] = true
-		}
-		if len(res.Samples) < 3 && (i-o.From)%7 == 0 {
-			res.Samples = append(res.Samples, map[string]any{"run": i, "scenario": h.Describe(sc), "strategy": cfg.Strategy, "steps": out.Steps, "preemptions": out.Preempts})
-		}
-		if v == nil && o.RaceCheck != nil && o.RaceCheck() > races0 {
-			v = &Violation{Signature: "race", Detail: "data race reported by the race detector during this run"}
 		}
 		if v == nil {
 			continue
